@@ -46,7 +46,7 @@ class ReqRow:
         self.hk = None
         self.has = {}
         for k, v in r.st.ts.items():
-            if isinstance(k, tuple) and len(k) == 4 and k[0] == "cmp" and k[2] == "in" and destruct(k[3])[0] in ("frozenset", "set") and destruct(k[1])[0] == "const":
+            if isinstance(k, tuple) and len(k) == 4 and k[0] == "cmp" and k[2] == "in" and destruct(k[3])[0] in ("frozenset", "set", "setcomp", "listcomp", "tuple", "list") and destruct(k[1])[0] == "const":
                 if self.hk is not None and self.hk != k[3]:
                     self.problems.append(f"two different key sets consulted: {self.hk[:50]} / {k[3][:50]}")
                 self.hk = k[3]
@@ -125,7 +125,9 @@ def request_rows(ctx):
 def key_set_ok(hk):
     """frozenset/set(<comprehension> lower-casing every key of the caller's headers)"""
     op, a = destruct(hk or "")
-    if op not in ("frozenset", "set") or len(a) != 1:
+    if op in ("setcomp", "listcomp") and len(a) == 2:
+        op, a = "set", (hk,)  # a bare comprehension used as the key set
+    if op not in ("frozenset", "set", "tuple", "list") or len(a) != 1:
         return False
     op2, a2 = destruct(a[0])
     if op2 in ("set", "list", "frozenset") and len(a2) == 1:
